@@ -266,7 +266,7 @@ func c18Ops() []c18Op {
 			return fmt.Sprintf("held=%v", bytes.Equal(b, want))
 		}},
 		{"new-ike-sa-key(dh+random)", func(t *tctx) string {
-			prop, _ := infoSA(c07Case{PRF: t.k % 3, Integ: 1, Encr: 0, DH: 0}).ToProposal()
+			prop, _ := infoSA(c07Case{PRF: t.k % 3, Integ: 1, Encr: 0, DH: t.k % 2}).ToProposal() // threads negotiate different groups
 			sa, pub, err := security.NewIKESAKey(prop, []byte{2}, univ.Pat(32, t.k), 1, 2)
 			if err != nil {
 				return "error"
